@@ -305,5 +305,25 @@ checks["C15"] = dict(
     level_text="Bounded symbolic execution of StoreLogs/GetLog through the real WAL, segment writer and reader for every size in the stated windows; the solver decides equality of what is read with what was written for all contents",
     level_note="size windows enumerated, not symbolic; 64 MiB boundary not covered")
 
+checks["C07"] = dict(
+    runs=dict(
+        quick=[H("HarnessFS", {"F": 0}, pkg="harness/hfs", trace=True, crossval=1),
+               H("HarnessFS", {"F": 1}, pkg="harness/hfs", trace=True, crossval=3),
+               H("HarnessMetaInit", {"F": 1}, pkg="harness/hfs", trace=True, crossval=2)],
+        thorough=[H("HarnessFS", {"F": 1}, pkg="harness/hfs", trace=True, crossval=4),
+                  H("HarnessFS", {"F": 2}, pkg="harness/hfs", trace=True, crossval=4),
+                  H("HarnessFS", {"F": 1, "seg": 64, "appends": 3}, pkg="harness/hfs", trace=True, crossval=3),
+                  H("HarnessMetaInit", {"F": 2}, pkg="harness/hfs", trace=True, crossval=3)]),
+    required_reach=["fs-checked", "deleted", "store-failed", "metainit-checked", "load-failed"],
+    bounds=dict(quick="production composition wal.Open(dir, segment.NewFiler(dir, fs.New())) over the engine's OS model: three appends (first commit into a new file, second, sealing append with rotation into the next file), a head truncation deleting a segment, close; at most one injected failure of any fsync / directory fsync / pwrite / fallocate / unlink, a failed StoreLogs retried once; BoltMetaDB first Load in an empty directory with at most one failure of commit / rename / directory fsync",
+                thorough="two failures; one entry per segment"),
+    assumptions=["OS model (engine/extern_os.go): open/pwrite/pread/fallocate/fsync/unlink/rename/stat/readdir on an in-memory file tree, each traced; kernel contract assumed: fsync(file) makes its bytes durable, fsync(dir) makes create/unlink/rename durable, fallocate(extend) yields a zero-filled file of the requested size",
+                 "bbolt model (engine/extern_bolt.go): transactional key/value store per path, Commit atomic; bbolt's own crash safety is trusted",
+                 "the WAL's metadata store in HarnessFS is the in-memory model (the JSON record needs encoding/json, which is not interpreted)",
+                 "native confirmation: the same workload runs on a real directory under strace with the same failure injected; the engine's trace must equal the syscall trace (file opens, fallocate, pwrite, fsync, directory fsync, unlink, rename)"],
+    outside=["what the kernel and the disk do below the system calls", "failures of open/close/stat (not injectable per thread with strace, so not confirmable)", "bbolt-internal I/O"],
+    level_text="Symbolic execution of the real fs, segment and wal packages (and metadb initialisation) over an OS-call model: the durability contract is a predicate over the trace of OS calls, checked on every path = every code path x every injected failure within the bound",
+    level_note="kernel contract assumed; failures bounded; bbolt internals trusted")
+
 json.dump(checks, open(os.path.join(ROOT, "checks.json"), "w"), indent=1)
 print("checks:", sorted(checks))
